@@ -9,7 +9,7 @@
    Statements only, each closed by `exact'. *)
 From Coq Require Import ZArith List Bool.
 Import ListNotations.
-Require Import Verif.gen.Consts_ipcdata Verif.gen.Src_ipcs Verif.C2CoqPrelude Verif.IpcDataModel Verif.IpcSrcEq.
+Require Import Verif.gen.Consts_ipcdata Verif.gen.Src_ipcs Verif.gen.Src_ipcc Verif.C2CoqPrelude Verif.IpcDataModel Verif.IpcSrcEq.
 Local Open Scope Z_scope.
 
 Theorem C02_src_response_send_oversize : forall c data size mx nresp nretry k1 k2 k3 o1 o2 o3,
@@ -57,6 +57,23 @@ Theorem C02_src_q_len_limit : forall c fq prio_ k oq (s : st),
   fst (_request_q_len_get c fq prio_ k oq) = q_len_limit s.
 Proof. exact src_q_len_limit. Qed.
 Print Assumptions C02_src_q_len_limit.
+
+(* client side (gen/Src_ipcc.v, regenerated from lib/ipcc.c): qb_ipcc_send / qb_ipcc_sendv refuse an oversize message before
+   the flow-control word is read or the transport called (the four call counters are unchanged).  For sendv the statement
+   needs the iovec total below 2^31: the C code accumulates it in an int32_t (DESIGN.md section 9, suspected finding) *)
+Theorem C02_src_ipcc_send_oversize : forall fuel c p len fcmax ffc nsp mx k1 k2 k3 k4 o1 o2 o3 o4,
+  c <> 0 -> mx < len ->
+  qb_ipcc_send fuel c p len fcmax ffc nsp mx k1 k2 k3 k4 o1 o2 o3 o4 = Some (- IPC_EMSGSIZE, k1, k2, k3, k4).
+Proof. exact src_ipcc_send_oversize. Qed.
+Print Assumptions C02_src_ipcc_send_oversize.
+
+Theorem C02_src_ipcc_sendv_oversize_partial : forall fuel c iov (n : nat) fcmax ffc nsp mx k1 k2 k3 k4 lens o1 o2 o3 o4 o5,
+  c <> 0 -> (n < fuel)%nat -> Z.of_nat n < 2 ^ 31 -> (forall j, 0 <= lens j) -> sum_lens lens 0 n < 2 ^ 31 ->
+  mx < sum_lens lens 0 n ->
+  qb_ipcc_sendv fuel c iov (Z.of_nat n) fcmax ffc nsp mx k1 k2 k3 k4 lens o1 o2 o3 o4 o5
+  = Some (- IPC_EMSGSIZE, k1, k2, k3, k4).
+Proof. exact src_ipcc_sendv_oversize. Qed.
+Print Assumptions C02_src_ipcc_sendv_oversize_partial.
 
 (* non-vacuity: negotiated maximum 12328, a 14000-byte event (the design round's finding 6.3 #4) is refused untouched;
    a 3-element iovec of 5000 bytes each totals 15000 and is refused as well; 12328 bytes pass to the transport *)
